@@ -6,7 +6,7 @@ from ..engine import AnalysisError, show, strip, short, walk, tree_calls, last_s
 
 PROP = "C02"
 LEVEL = "other"
-QUICK = ["K0", "K1", "K3", "K4"]
+QUICK = ["K0", "K1", "K3", "K4", "K9"]
 THOROUGH = ALL_CONFIGS
 ASSUMPTIONS = ["hole-search and free-list cell arithmetic are value-level and not decided",
                "a thread-local buffer is stale after its space was swept/reset; every plan must retire it in its mutator release function"]
@@ -214,6 +214,41 @@ def run(ctx, F):
     push_callers = {cs.fn.q for cs in callers(F, "policy::immix::block::ReusableBlockPool::push")}
     ctx.judge(push_callers == {"policy::immix::block::Block::sweep"}, "C02.reuse-reset", "reusable blocks are pushed only by Block::sweep", expected="Block::sweep only",
               found=str(sorted(push_callers)), key="C02.reuse-reset|push")
+
+    # ---- C02.reset-clears-all-buffers: retiring an allocator drops EVERY thread-local buffer it owns (a buffer that survives a GC
+    # keeps allocating into memory the collector may have reclaimed and handed to somebody else)
+    ir = F.fn("util::alloc::immix_allocator::ImmixAllocator::reset")
+    rsts = {show(strip(ir.flow.arg_tree(c, 0))): c for c in live_calls(ir) if c.q == "util::alloc::bumpallocator::BumpPointer::reset"}
+    okb = set(rsts) == {"arg1.bump_pointer", "arg1.large_bump_pointer"} and all(ir.cfg.must_pass([c.bb]) and not guard_strs(ir, c.bb) and
+                                                                                 [const_arg(ir.flow.arg_tree(c, i)) for i in (1, 2)] == [0, 0] for c in rsts.values())
+    ctx.judge(okb, "C02.reset-clears-all-buffers", "ImmixAllocator::reset drops both bump buffers unconditionally", expected="bump_pointer.reset(ZERO, ZERO) and large_bump_pointer.reset(ZERO, ZERO) on every path",
+              found=str({k: guard_strs(ir, c.bb) for k, c in rsts.items()}), where=where(ir), key="C02.reset-clears-all-buffers|immix")
+    ln = [(show(strip(t)), guard_strs(ir, bb)) for (bb, j, pl, t) in stores(ir) if place_str(ir, pl).endswith(".line")]
+    ctx.judge(ln == [("option::Option::None{}", [])], "C02.reset-clears-all-buffers", "ImmixAllocator::reset forgets the hole-search cursor", expected="self.line = None unconditionally", found=str(ln), where=where(ir),
+              key="C02.reset-clears-all-buffers|immix-line")
+    bp = F.fn("util::alloc::bumpallocator::BumpPointer::reset")
+    bst = sorted((place_str(bp, pl).split(".")[-1], show(strip(t)), tuple(guard_strs(bp, bb))) for (bb, j, pl, t) in stores(bp))
+    ctx.judge(bst == [("cursor", "arg2", ()), ("limit", "arg3", ())], "C02.reset-clears-all-buffers", "BumpPointer::reset installs exactly (start, end)", expected="cursor = start; limit = end", found=str(bst), where=where(bp),
+              key="C02.reset-clears-all-buffers|bump-pointer")
+    for q in ("util::alloc::bumpallocator::BumpAllocator::reset", "util::alloc::markcompact_allocator::MarkCompactAllocator::reset"):
+        g = F.fns.get(q)
+        if g is None:
+            continue
+        ok1 = any(c.name == "reset" and not guard_strs(g, c.bb) for c in live_calls(g)) or \
+            len([1 for (bb, j, pl, t) in stores(g) if re.search(r"\.(cursor|limit)$", place_str(g, pl)) and not guard_strs(g, bb)]) >= 2
+        ctx.judge(ok1, "C02.reset-clears-all-buffers", "%s drops its buffer unconditionally" % short(q), expected="cursor/limit reset on every path", found="conditional or missing", where=where(g),
+                  key="C02.reset-clears-all-buffers|" + q)
+    lf = F.fns.get("<policy::lockfreeimmortalspace::LockFreeImmortalSpace as policy::space::Space>::acquire")
+    if lf is not None and not lf.cfg.noreturn:
+        cur = [c for c in live_calls(lf) if c.args and show(strip(lf.flow.arg_tree(c, 0))) == "arg1.cursor" and c.q and "Atomic" in c.q]
+        names = sorted(c.name for c in cur)
+        okl = bool(names) and all(n in ("fetch_update", "fetch_add", "compare_exchange", "compare_exchange_weak", "load") for n in names) and \
+            any(n in ("fetch_update", "fetch_add") for n in names) and "store" not in names
+        ctx.judge(okl, "C02.take-before-return", "LockFreeImmortalSpace::acquire claims its range with one atomic read-modify-write of the cursor", expected="cursor.fetch_update / fetch_add (no load-then-store)", found=str(names),
+                  where=where(lf), key="C02.take-before-return|lockfree")
+        rts = [show(strip(t)) for _, t in lf.flow.return_trees()]
+        ctx.judge(bool(rts) and all("fetch_update" in r or "fetch_add" in r for r in rts), "C02.take-before-return", "the range handed out starts at the value the atomic operation returned", expected="start = previous cursor from the RMW",
+                  found=str(rts)[:160], where=where(lf), key="C02.take-before-return|lockfree-start")
 
     # ---- C02.free-only-from-sweep
     census = {
